@@ -935,15 +935,15 @@ func cursorUndecodable(c string) bool {
 func (a *apiWorld) genBadCursor(t *rapid.T) string {
 	enc := func(s string) string { return base64.RawURLEncoding.EncodeToString([]byte(s)) }
 	return rapid.SampledFrom([]string{"!!!", "abc", enc("garbage"), enc("{}"), enc("null"), enc("[]"), enc(`{"pageSize":-1}`), enc(`{"offset":-5,"pageSize":3}`), enc(`{"column":"nope","paginationID":1,"order":0,"pageSize":1,"bottom":1}`),
-		enc(`{"column":"id; drop table","pageSize":15,"order":1}`), enc(`{"column":"`+sqlMarker+`","pageSize":15,"order":1,"offset":0}`), enc(`{"column":"`+sqlMarker+`","pageSize":15,"order":0,"paginationID":2,"bottom":1}`),
-		enc(`{"pageSize":15,"offset":0,"order":0,"column":"id","options":{"expand":["`+sqlMarker+`"]}}`), enc(`{"pageSize":15,"offset":0,"order":0,"column":"id","options":{"qb":{"$match":{"`+sqlMarker+`":"x"}}}}`), enc(`{"pageSize":100000000}`), enc(`{"offset":18446744073709551615,"pageSize":15}`), enc(`{"qb":{"$match":{"nope":1}},"pageSize":15}`),
+		enc(`{"column":"id; drop table","pageSize":15,"order":1}`), enc(`{"column":"` + sqlMarker + `","pageSize":15,"order":1,"offset":0}`), enc(`{"column":"` + sqlMarker + `","pageSize":15,"order":0,"paginationID":2,"bottom":1}`),
+		enc(`{"pageSize":15,"offset":0,"order":0,"column":"id","options":{"expand":["` + sqlMarker + `"]}}`), enc(`{"pageSize":15,"offset":0,"order":0,"column":"id","options":{"qb":{"$match":{"` + sqlMarker + `":"x"}}}}`), enc(`{"pageSize":100000000}`), enc(`{"offset":18446744073709551615,"pageSize":15}`), enc(`{"qb":{"$match":{"nope":1}},"pageSize":15}`),
 		enc(`{"options":{"qb":{"$match":{"id":"abc"}}},"pageSize":15,"column":"id"}`), enc(`{"options":{"pit":"zzz"},"pageSize":15}`), base64.StdEncoding.EncodeToString([]byte(`{"pageSize":1`))}).Draw(t, "badCursor")
 }
 
 // ---------------------------------------------------------------- oracle
 
 // unquotedOccurrence returns the position of the first occurrence of marker in sql that lies outside
-// single-quoted literals ('' escapes), double-quoted identifiers and dollar-free comments; -1 if none.
+// single-quoted literals (” escapes), double-quoted identifiers and dollar-free comments; -1 if none.
 func unquotedOccurrence(sql, marker string) int {
 	in := byte(0)
 	for i := 0; i < len(sql); i++ {
